@@ -1019,6 +1019,10 @@ func init() {
 		if thorough {
 			k = 20
 		}
+		if os.Getenv("VERIF_SEARCH") != "" {
+			// the search pass after a broken tie: three times the quick budget, so that a failing run stays short
+			b, k = 1, 3
+		}
 		Cases(t, r, b*k*tr.EnvInt("STORE_PLAIN", 100), "plain")
 		Cases(t, r, b*k*tr.EnvInt("STORE_FAULTS", 130), "faults")
 		if template != "" {
@@ -1031,6 +1035,9 @@ func init() {
 		k := 1
 		if thorough {
 			k = 20
+		}
+		if os.Getenv("VERIF_SEARCH") != "" {
+			b, k = 1, 3
 		}
 		InitCases(t, r)
 		Cases(t, r, b*k*tr.EnvInt("STORE_CRASHES", 220), "crashes")
